@@ -7,7 +7,8 @@ class C21(Spec):
     harness = "h_c21"
     lean_deps = ("C22", "C23")   # Model/C21Wire.lean (the shared driver) imports the three models
     required_theorems = (
-        "C21.pool_inv", "C21.pool_inv_step", "C21.block_removed", "C21.push_fail_unchanged",
+        "C21.pool_inv", "C21.pool_inv_step", "C21.block_removed", "C21.block_removed_until_pushed",
+        "C21.block_removed_not_invariant", "C21.push_fail_unchanged",
         "C21.remove_absent_unchanged", "C21.removeTxs_absent_unchanged", "C21.latest_has_newest",
         "C21.shash_lookup_sound", "C21.shash_agrees_partial", "C21.shash_agrees_full_false",
     )
@@ -31,7 +32,10 @@ class C21(Spec):
         "RemoveTxs / RemoveTxsOfBlock / sweep / observers) are trace-validated: the driver must find a linearisation "
         "of the model's atomic steps reproducing every response and the final state (thorough tier: also under the "
         "race detector); score/price queues are "
-        "out of scope (SimpleQueue only); miner transactions in rolled-back blocks and the delayed-tx cache are not "
+        "out of scope (SimpleQueue only); block_removed speaks of the instant after the removal (absence lasts until "
+        "the hash is pushed again - eventAddBlock is several lock sections, a submission already past CheckDupTx can "
+        "re-enter; also eventAddBlock's own pushExpiredDelayTx re-submits delayed transactions after the sweep: the "
+        "delayed-tx cache is not modelled); miner transactions in rolled-back blocks and the delayed-tx cache are not "
         "modelled; configuration: perAcc > 0, lastMax > 0 (NewMempool defaults), shMax = cap (timeline constructor).")
     assumptions = (
         "transactions are abstract records (hash, sender, size, fee, expire fields, short hash); the harness maps real signed transactions/groups to them",
